@@ -7,8 +7,10 @@ IsPrefixOf(a, b) == Len(a) <= Len(b) /\ SubSeq(b, 1, Len(a)) = a
 
 TcpOk(r) ==
   LET e == ExpectedStream(r.direct) IN
-  \* a connection the server closes while requests are still unread may be reset by the kernel, which can
-  \* discard octets the client has not read yet: then only "nothing wrong was sent" can be required
+  \* a connection the server closes while requests are still unread or still being sent is reset by the kernel,
+  \* which discards what was left in the server's send queue and what the client had not read yet (r.reset: a read
+  \* or a write of the client failed): then only "nothing wrong was sent" can be required. Seen once in 6 000
+  \* connections of a thorough run on a loaded machine (segmented sending, response-less request in the middle).
   /\ IF r.reset THEN IsPrefixOf(r.got, e.stream) /\ e.closes ELSE r.got = e.stream
   /\ (e.closes => r.closed)
 UdpOk(r) ==
